@@ -229,6 +229,35 @@ func Run(c Case) core.Result {
 			return core.Fail("C10/grammar", "step %s: %v", st.label, st.err)
 		}
 	}
+	if c.Size <= L && c.Size+64 >= refLimit {
+		// sizes near the 16 MiB default: a reference server with a higher limit is not available
+		// (it would be the default itself), so the message is checked directly: no 54000 error, and a
+		// Query reaches the parser byte-exact
+		m := got.step("msg")
+		if m == nil {
+			return core.Fail("C10/within-limit/no-step", "session ended before the message: %+v", got.steps)
+		}
+		for _, x := range m.msgs {
+			if x.Type == 'E' {
+				f, _ := x.ErrMap()
+				if f['C'] == "54000" {
+					return core.Fail("C10/within-limit/rejected", "a %d byte %q message is within the limit %d but was rejected: %s", c.Size, c.Type, L, x.Brief())
+				}
+			}
+		}
+		if c.Type == 'Q' {
+			seen := false
+			for _, ev := range got.trace {
+				if ev.K == "parse" && len(ev.Q) == c.Size-1 {
+					seen = true
+				}
+			}
+			if !seen {
+				return core.Fail("C10/within-limit/not-delivered", "a Query of %d bytes (limit %d) did not reach the parser byte-exact", c.Size, L)
+			}
+		}
+		return res
+	}
 	if c.Size <= L {
 		// differential: identical to a server whose limit is far above every size of the case
 		ref := c.session(refLimit)
